@@ -496,6 +496,12 @@ fn main() {
             (Ok(a), Ok(b2), Ok(c)) => (a, b2, c),
             (a, b2, c) => {
                 let why = [a.err(), b2.err(), c.err()].into_iter().flatten().next().unwrap_or_default();
+                if kind.starts_with("corpus:reject_") && why.starts_with("front end") {
+                    // a must-reject entry (a repaired defect whose repair is a compile error)
+                    ev.hit("corpus:must-reject-rejected");
+                    ev.case(&src_n, true);
+                    continue;
+                }
                 ev.hit(&format!("skipped:{}", why.split(':').next().unwrap_or("?")));
                 ev.case(&src_n, false);
                 if why.starts_with("run:") {
@@ -507,6 +513,11 @@ fn main() {
                 continue;
             }
         };
+        if kind.starts_with("corpus:reject_") {
+            ev.violation(&format!("shape={kind} kind=must-reject-program-accepted"),
+                &format!("{kind} must be rejected by the compiler (its acceptance was a repaired defect) but compiles and runs"),
+                json!({"source_at_N": src_n, "N": n}), true);
+        }
         ev.sample_sparse(i, 40, || json!({"kind": kind, "N": n, "source_at_N": src_n,
             "peaks_N": [pn.frames, pn.locals, pn.stack, pn.slots], "peaks_50N": [p50.frames, p50.locals, p50.stack, p50.slots]}));
 
